@@ -334,17 +334,22 @@ Definition c07_defs : list ruledef := Eval vm_compute in match parse_defs c07_ru
 Definition c07_instr : walker := let t := [76;68;32;65] in {| tail := t; cur := 0; lim := bytes_len t |}.
 
 Example C07_literal_priority_nonvacuous :
-  parse_defs c07_rules_text = Some c07_defs /  map fst (working_brute (pred (match_fuel c07_defs (tail c07_instr))) c07_defs c07_instr)
-    = [IMatch 0 0 [AExpr (EVar 0 [[65]]) 3 4 [65]] 0; IMatch 0 1 [] 0] /  match_instr_at false c07_defs c07_instr = [IMatch 0 1 [] 3] /  match_instr_at true c07_defs c07_instr = [IMatch 0 1 [] 3].
+  parse_defs c07_rules_text = Some c07_defs /\
+  map fst (working_brute (pred (match_fuel c07_defs (tail c07_instr))) c07_defs c07_instr)
+    = [IMatch 0 0 [AExpr (EVar 0 [[65]]) 3 4 [65]] 0; IMatch 0 1 [] 0] /\
+  match_instr_at false c07_defs c07_instr = [IMatch 0 1 [] 3] /\
+  match_instr_at true c07_defs c07_instr = [IMatch 0 1 [] 3].
 Proof. repeat split; vm_compute; reflexivity. Qed.
 
 Example C07_pattern_lowercase_nonvacuous :
-  lower_exacts [72;97;76;116] = [PExact 104; PGlued 97; PGlued 108; PGlued 116] /  lower_exacts [72;97;76;116] = lower_exacts [104;65;108;84].
+  lower_exacts [72;97;76;116] = [PExact 104; PGlued 97; PGlued 108; PGlued 116] /\
+  lower_exacts [72;97;76;116] = lower_exacts [104;65;108;84].
 Proof. split; vm_compute; reflexivity. Qed.
 
-(* C07_blank_before_exact: skipping "  ;*c*; " in front of 'x' first changes nothing *)
+(* C07_blank_before_exact: skipping "  ;*c*; " in front of 'X' first changes nothing *)
 Example C07_blank_before_exact_nonvacuous :
   let t := [32;32;59;42;99;42;59;32;88;49] in
   let w := {| tail := t; cur := 0; lim := bytes_len t |} in
-  skip_ignorable 5 w <> w /\ maybe_expect_char w 120 <> None /  maybe_expect_char (skip_ignorable 5 w) 120 = maybe_expect_char w 120.
+  skip_ignorable 5 w <> w /\ maybe_expect_char w 120 <> None /\
+  maybe_expect_char (skip_ignorable 5 w) 120 = maybe_expect_char w 120.
 Proof. cbv zeta. split; [vm_compute; discriminate|]. split; [vm_compute; discriminate | vm_compute; reflexivity]. Qed.
